@@ -129,7 +129,8 @@ func genC11Includes(r *Rand, index int, tier string) *RunSpec {
 	g := NewGen(r)
 	g.Feat = map[string]bool{}
 	spec := &RunSpec{Family: "c11-includes"}
-	uncond := make([][]int, nn) // unconditional edges (must-error analysis)
+	uncond := make([][]int, nn) // unconditional plain include edges (must-error analysis)
+	roots := []int{0}
 	anyShort := false
 	for i := 0; i < nn; i++ {
 		var parts []string
@@ -149,8 +150,14 @@ func genC11Includes(r *Rand, index int, tier string) *RunSpec {
 				anyShort = true
 			}
 			parts = append(parts, c11Edge(st, names[j], j))
-			if st == "plain" || st == "shorthand" {
+			// shorthand component tags are only resolved in the top-level template (preProcessNodes); inside an
+			// included component (also when the page itself is included again) the tag is plain markup. A shorthand
+			// edge therefore only makes its target reachable from the top-level page; it is never part of a cycle.
+			if st == "plain" {
 				uncond[i] = append(uncond[i], j)
+			}
+			if st == "shorthand" && i == 0 {
+				roots = append(roots, j)
 			}
 		}
 		g.put(names[i], strings.Join(parts, "\n"))
@@ -171,7 +178,11 @@ func genC11Includes(r *Rand, index int, tier string) *RunSpec {
 		}
 		seen[u] = 2
 	}
-	dfs(0)
+	for _, rt := range roots {
+		if seen[rt] == 0 {
+			dfs(rt)
+		}
+	}
 	spec.Files = g.FileSpecs(1_700_000_000_000_000_000)
 	spec.Engine = randomEngine(r, EngineSpec{Components: anyShort})
 	entry := Pick(r, Entries)
